@@ -9,7 +9,12 @@
 //!      session ids: z in 0..n = id of session z; 1000+r = unrelated random id; 2000+j = id of j
 //!      cut to 31 bytes; 3000 = empty; 4000+j = id of j plus one byte.
 //!  {"t":"pair","net":..,"out":{..},"in":{..}}        two honest ends on one session
-//!  {"t":"glue","net":"g"|"c","key":i,"allowed":[..],"limit":"L","events":[["conn",spec]|["disc",c]..]}
+//!  {"t":"glue","net":"g"|"c","key":i,"allowed":[..],"limit":"L","out_allowed":[..],
+//!   "events":[["conn",spec]|["dial",peer,spec]|["dial2",peer,specA,specB]|["dialdead",peer]|
+//!             ["maintain",peer,[spec..]]|["disc",c]..]}
+//!      conn = a peer connects (run_inbound_stream); dial = the node's run_outbound_stream dials the
+//!      harness expecting `peer`; dial2 = two concurrent dials of one peer; maintain = the validator
+//!      network's maintain_connection loop, one answer per round.
 //!      a real `Network` (public `Network::new`, in-memory engine) wrapped in `verif::Glue`; the
 //!      adversary opens connection c = 0,1,2.. (spec as above, genesis 0 = the node's own) and
 //!      closes connections; pools observed after every event.  net "g": allowed = static_inbound,
@@ -449,19 +454,108 @@ async fn run_pair(env: Arc<Env>, listener: &mut net::tcp::Listener, c: &Value) -
 }
 
 
-/// A real node built with the public constructor, its admission glue executed on sessions whose
-/// other end is the adversary.
-async fn run_glue(env0: Arc<Env>, listener: &mut net::tcp::Listener, c: &Value) -> Value {
+/// The adversary's move on an established session: a malformed input or a handshake message built
+/// from `spec`. Returns (the delivered message as symbolised from the real objects, was a
+/// well-formed handshake sent).
+async fn adv_act(
+    ctx: &ctx::Ctx,
+    env: &Env,
+    gossip: bool,
+    ids: &[[u8; 32]],
+    recs: &[Option<Msg>],
+    cix: usize,
+    spec: &Value,
+    a: &mut TcpNoise,
+) -> (Value, bool) {
+    if let Some(kind) = spec.get("mal").and_then(|m| m.as_str()) {
+        match kind {
+            "junk" => {
+                let _ = a.send_proto(ctx, &env.gens[0]).await;
+            }
+            "oversize" => {
+                let big = node::SessionId(vec![1u8; 20_000]);
+                let m = if gossip {
+                    Msg::G(env.nodes[0].sign_msg(big), env.gens[0], false)
+                } else {
+                    Msg::C(env.vals[0].sign_msg(big), env.gens[0])
+                };
+                send_msg(ctx, a, &m).await;
+            }
+            "othernet" => {
+                let m = if gossip {
+                    Msg::C(env.vals[0].sign_msg(node::SessionId(ids[cix].to_vec())), env.gens[0])
+                } else {
+                    Msg::G(env.nodes[0].sign_msg(node::SessionId(ids[cix].to_vec())), env.gens[0], false)
+                };
+                send_msg(ctx, a, &m).await;
+            }
+            _ => {} // "drop": say nothing, the caller closes the stream
+        }
+        (Value::Null, false)
+    } else if let Some(m) = build_msg(env, gossip, ids, recs, spec) {
+        let d = symbolize(env, ids, &m);
+        send_msg(ctx, a, &m).await;
+        (d, true)
+    } else {
+        (Value::Null, false)
+    }
+}
+
+/// Server side of the preface; a dead connection left in the backlog (a dial cancelled half way)
+/// is skipped.
+async fn accept_retry(ctx: &ctx::Ctx, l: &mut net::tcp::Listener) -> ctx::Result<(TcpNoise, &'static str)> {
+    let mut last = TcpNoise::accept_preface(&ctx.with_timeout(time::Duration::seconds(8)), l).await;
+    for _ in 0..3 {
+        if last.is_ok() {
+            break;
+        }
+        last = TcpNoise::accept_preface(&ctx.with_timeout(time::Duration::seconds(8)), l).await;
+    }
+    last
+}
+
+/// Empties a listener's backlog.
+async fn drain(ctx: &ctx::Ctx, l: &mut net::tcp::Listener) {
+    while let Ok(Ok(Ok(s))) =
+        tokio::time::timeout(std::time::Duration::from_millis(20), net::tcp::accept(ctx, l)).await
+    {
+        drop(s);
+    }
+}
+
+/// Past the handshake the node either fails the pool insert and closes the stream, or starts the
+/// rpc service, whose first frame arrives here. Either way this read returns; then the task of
+/// the connection is finished iff the connection was refused (single-threaded runtime).
+async fn probe_live<T>(ctx: &ctx::Ctx, a: &mut TcpNoise, h: &tokio::task::JoinHandle<T>) -> bool {
+    let _ = a
+        .recv_proto::<validator::GenesisHash>(&ctx.with_timeout(time::Duration::seconds(3)), 10_000)
+        .await;
+    for _ in 0..4 {
+        tokio::task::yield_now().await;
+    }
+    !h.is_finished()
+}
+
+/// A real node built with the public constructor; its admission glue of both directions is
+/// executed on sessions whose other end is the adversary.
+async fn run_glue(
+    env0: Arc<Env>,
+    listener: &mut net::tcp::Listener,
+    listener2: &mut net::tcp::Listener,
+    addr2: std::net::SocketAddr,
+    c: &Value,
+) -> Value {
     use zksync_consensus_roles::validator::testonly::{Setup, SetupSpec};
     let ctx = &ctx::root();
     let gossip = c["net"].as_str().unwrap() == "g";
     let key = c["key"].as_u64().unwrap() as usize;
-    let allowed: Vec<usize> = c["allowed"]
-        .as_array()
-        .unwrap()
-        .iter()
-        .map(|x| x.as_u64().unwrap() as usize)
-        .collect();
+    let idx_list = |v: &Value| -> Vec<usize> {
+        v.as_array()
+            .map(|a| a.iter().map(|x| x.as_u64().unwrap() as usize).collect())
+            .unwrap_or_default()
+    };
+    let allowed = idx_list(&c["allowed"]);
+    let out_allowed = idx_list(&c["out_allowed"]);
     let limit = u64_of(&c["limit"]) as usize;
     // committee: for the validator network the allowed set, else some fixed committee
     let committee: Vec<usize> = if gossip || allowed.is_empty() { vec![0] } else { allowed.clone() };
@@ -491,6 +585,14 @@ async fn run_glue(env0: Arc<Env>, listener: &mut net::tcp::Listener, c: &Value) 
     let engine = zksync_consensus_engine::testonly::TestEngine::new(ctx, &setup).await;
     let mut cfg = make_cfg(&env, key, if gossip { &allowed } else { &[] }, false);
     cfg.gossip.dynamic_inbound_limit = limit;
+    cfg.gossip.static_outbound = if gossip {
+        out_allowed
+            .iter()
+            .map(|&i| (env.nodes[i].public(), net::Host::from(*env.addr)))
+            .collect()
+    } else {
+        HashMap::new()
+    };
     cfg.validator_key = Some(env.vals[key].clone());
     let (con_send, _con_recv) = zksync_concurrency::sync::prunable_mpsc::unpruned_channel();
     let (_net_send, net_recv) = zksync_concurrency::ctx::channel::unbounded();
@@ -501,15 +603,29 @@ async fn run_glue(env0: Arc<Env>, listener: &mut net::tcp::Listener, c: &Value) 
     let _engine_runner = engine.runner;
 
     let pools = |glue: &Glue| -> Value {
-        let mut gi: Vec<i64> = glue
-            .gossip_inbound()
-            .iter()
-            .map(|k| env.nodes.iter().position(|x| &x.public() == k).map(|i| i as i64).unwrap_or(-1))
-            .collect();
+        let nk = |k: &node::PublicKey| env.nodes.iter().position(|x| &x.public() == k).map(|i| i as i64).unwrap_or(-1);
+        let mut gi: Vec<i64> = glue.gossip_inbound().iter().map(nk).collect();
         gi.sort();
+        let mut go: Vec<i64> = glue.gossip_outbound().iter().map(nk).collect();
+        go.sort();
         let mut ci: Vec<i64> = glue.consensus_inbound().iter().map(|k| keys::rank(&env.vals, k)).collect();
         ci.sort();
-        json!({"g": gi, "c": ci, "go": glue.gossip_outbound().len(), "co": glue.consensus_outbound().len()})
+        let mut co: Vec<i64> = glue.consensus_outbound().iter().map(|k| keys::rank(&env.vals, k)).collect();
+        co.sort();
+        json!({"g": gi, "c": ci, "go": go, "co": co})
+    };
+    // the node dials `peer` at `addr` through its real outbound runner
+    let spawn_dial = |peer: usize, addr: std::net::SocketAddr| {
+        let g2 = glue.clone();
+        let env = env.clone();
+        tokio::task::spawn_local(async move {
+            let ctx = ctx::root();
+            if gossip {
+                g2.gossip_run_outbound_stream(&ctx, &env.nodes[peer].public(), addr).await.is_ok()
+            } else {
+                g2.consensus_run_outbound_stream(&ctx, &env.vals[peer].public(), addr).await.is_ok()
+            }
+        })
     };
 
     let mut ids: Vec<[u8; 32]> = vec![];
@@ -518,6 +634,7 @@ async fn run_glue(env0: Arc<Env>, listener: &mut net::tcp::Listener, c: &Value) 
     let mut handles: Vec<Option<tokio::task::JoinHandle<bool>>> = vec![];
     let mut out = vec![];
     let mut stuck = false;
+    let want_ep = if gossip { "gossip" } else { "consensus" };
     for ev in c["events"].as_array().unwrap() {
         match ev[0].as_str().unwrap() {
             "conn" => {
@@ -535,71 +652,177 @@ async fn run_glue(env0: Arc<Env>, listener: &mut net::tcp::Listener, c: &Value) 
                         g2.consensus_run_inbound_stream(&ctx, server).await.is_ok()
                     }
                 });
-                let mut delivered = Value::Null;
-                let mut sent = false;
-                if let Some(kind) = spec.get("mal").and_then(|m| m.as_str()) {
-                    match kind {
-                        "junk" => {
-                            let _ = a.send_proto(ctx, &env.gens[0]).await;
-                        }
-                        "oversize" => {
-                            let big = node::SessionId(vec![1u8; 20_000]);
-                            let m = if gossip {
-                                Msg::G(env.nodes[0].sign_msg(big), env.gens[0], false)
-                            } else {
-                                Msg::C(env.vals[0].sign_msg(big), env.gens[0])
-                            };
-                            send_msg(ctx, &mut a, &m).await;
-                        }
-                        "othernet" => {
-                            let m = if gossip {
-                                Msg::C(env.vals[0].sign_msg(node::SessionId(ids[cix].to_vec())), env.gens[0])
-                            } else {
-                                Msg::G(env.nodes[0].sign_msg(node::SessionId(ids[cix].to_vec())), env.gens[0], false)
-                            };
-                            send_msg(ctx, &mut a, &m).await;
-                        }
-                        _ => {}
-                    }
-                } else if let Some(m) = build_msg(&env, gossip, &ids, &recs, spec) {
-                    delivered = symbolize(&env, &ids, &m);
-                    send_msg(ctx, &mut a, &m).await;
-                    sent = true;
-                }
+                let (delivered, sent) = adv_act(ctx, &env, gossip, &ids, &recs, cix, spec, &mut a).await;
                 let mut responded = false;
                 let mut live = false;
-                let mut keep = None;
                 if sent {
                     if let Some(m) = recv_msg(ctx, gossip, &mut a).await {
                         responded = true;
                         recs[cix] = Some(m);
-                        // past the handshake: either the insert fails and the node closes the stream,
-                        // or it starts the rpc service whose first frame arrives here
-                        let _ = a
-                            .recv_proto::<validator::GenesisHash>(
-                                &ctx.with_timeout(time::Duration::seconds(3)),
-                                10_000,
-                            )
-                            .await;
-                        for _ in 0..4 {
-                            tokio::task::yield_now().await;
-                        }
-                        live = !h.is_finished();
+                        live = probe_live(ctx, &mut a, &h).await;
                     }
                 }
                 if live {
-                    keep = Some(a);
+                    advs.push(Some(a));
                     handles.push(Some(h));
                 } else {
                     drop(a); // closes the adversary's end
                     if tokio::time::timeout(std::time::Duration::from_secs(8), &mut h).await.is_err() {
                         stuck = true; // (the task is left behind: scope tasks must not be aborted)
                     }
+                    advs.push(None);
                     handles.push(None);
                 }
-                advs.push(keep);
                 out.push(json!({"ev": "conn", "c": cix, "responded": responded, "live": live,
                                 "delivered": delivered, "pools": pools(&glue)}));
+            }
+            "dialdead" => {
+                // the node dials; the other end accepts the TCP connection and closes it at once
+                let peer = ev[1].as_u64().unwrap() as usize;
+                let mut h = spawn_dial(peer, *env.addr);
+                if let Ok(Ok(s)) = net::tcp::accept(ctx, listener).await {
+                    drop(s);
+                }
+                ids.push(*Keccak256::new(format!("verif-dead-{}", ids.len()).as_bytes()).as_bytes());
+                recs.push(None);
+                if tokio::time::timeout(std::time::Duration::from_secs(8), &mut h).await.is_err() {
+                    stuck = true;
+                }
+                advs.push(None);
+                handles.push(None);
+                out.push(json!({"ev": "dialdead", "c": ids.len() - 1, "live": false, "pools": pools(&glue)}));
+            }
+            "dial" | "dial2" => {
+                // "dial":  [peer, spec]; "dial2": [peer, specA, specB] = two concurrent dials of one
+                // peer (second listener), both handshakes in flight before either is answered
+                let peer = ev[1].as_u64().unwrap() as usize;
+                let two = ev[0].as_str().unwrap() == "dial2";
+                let mut pending = vec![];
+                let h1 = spawn_dial(peer, *env.addr);
+                let r1 = accept_retry(ctx, listener).await;
+                pending.push((h1, r1, &ev[2]));
+                if two {
+                    let h2 = spawn_dial(peer, addr2);
+                    let r2 = accept_retry(ctx, listener2).await;
+                    pending.push((h2, r2, &ev[3]));
+                }
+                // record what the node sent on each session before answering any
+                let mut open = vec![];
+                for (mut h, r, spec) in pending {
+                    match r {
+                        Ok((mut a, ep)) => {
+                            ids.push(a.id());
+                            let em = recv_msg(ctx, gossip, &mut a).await;
+                            recs.push(em);
+                            open.push((ids.len() - 1, h, a, ep, spec));
+                        }
+                        Err(_) => {
+                            ids.push(*Keccak256::new(format!("verif-dead-{}", ids.len()).as_bytes()).as_bytes());
+                            recs.push(None);
+                            if tokio::time::timeout(std::time::Duration::from_secs(8), &mut h).await.is_err() {
+                                stuck = true;
+                            }
+                            advs.push(None);
+                            handles.push(None);
+                            out.push(json!({"ev": "dial", "c": ids.len() - 1, "peer": peer, "em": Value::Null,
+                                            "preface_failed": true, "live": false, "pools": pools(&glue)}));
+                        }
+                    }
+                }
+                for (cix, mut h, mut a, ep, spec) in open {
+                    let em = recs[cix].as_ref().map(|m| symbolize(&env, &ids, m));
+                    let (delivered, sent) = adv_act(ctx, &env, gossip, &ids, &recs, cix, spec, &mut a).await;
+                    let live = if sent { probe_live(ctx, &mut a, &h).await } else { false };
+                    while advs.len() <= cix {
+                        advs.push(None);
+                        handles.push(None);
+                    }
+                    if live {
+                        advs[cix] = Some(a);
+                        handles[cix] = Some(h);
+                    } else {
+                        drop(a);
+                        if tokio::time::timeout(std::time::Duration::from_secs(8), &mut h).await.is_err() {
+                            stuck = true;
+                        }
+                    }
+                    out.push(json!({"ev": "dial", "c": cix, "peer": peer, "em": em, "endpoint_ok": ep == want_ep,
+                                    "live": live, "delivered": delivered, "pools": pools(&glue)}));
+                }
+            }
+            "maintain" => {
+                // ["maintain", peer, [spec..]]: the validator network's real reconnect loop
+                // (`maintain_connection`) for `peer`; each round the harness publishes a fresh
+                // address of `peer` (alternating listeners), the loop dials it, the adversary answers
+                // with the round's spec and, if registered, closes the connection again.
+                let peer = ev[1].as_u64().unwrap() as usize;
+                let specs = ev[2].as_array().unwrap().clone();
+                let peer_pk = env.vals[peer].public();
+                let in_out_pool = |glue: &Glue| glue.consensus_outbound().contains(&peer_pk);
+                let (glue_r, env_r) = (&glue, &env);
+                let (ids_r, recs_r, out_r) = (&mut ids, &mut recs, &mut out);
+                let (l1, l2) = (&mut *listener, &mut *listener2);
+                let stuck_here = zksync_concurrency::scope::run!(ctx, |ctx, s| async {
+                    s.spawn_bg(async {
+                        glue_r.consensus_maintain_connection(ctx, &peer_pk).await;
+                        Ok(())
+                    });
+                    let mut bad = false;
+                    for (round, spec) in specs.iter().enumerate() {
+                        let (l, addr) = if round % 2 == 0 { (&mut *l1, *env_r.addr) } else { (&mut *l2, addr2) };
+                        glue_r.announce_validator_addr(&env_r.vals[peer], addr, ctx.now_utc()).await;
+                        let acc = accept_retry(ctx, l).await;
+                        let Ok((mut a, ep)) = acc else {
+                            out_r.push(json!({"ev": "dial", "c": ids_r.len(), "peer": peer, "no_dial": true,
+                                              "live": false, "pools": pools(glue_r)}));
+                            bad = true;
+                            break;
+                        };
+                        let was = in_out_pool(glue_r); // someone else holds this peer's slot
+                        ids_r.push(a.id());
+                        let em = recv_msg(ctx, gossip, &mut a).await;
+                        recs_r.push(em);
+                        let cix = ids_r.len() - 1;
+                        let em = recs_r[cix].as_ref().map(|m| symbolize(env_r, ids_r, m));
+                        let (delivered, sent) = adv_act(ctx, env_r, gossip, ids_r, recs_r, cix, spec, &mut a).await;
+                        if sent {
+                            let _ = a
+                                .recv_proto::<validator::GenesisHash>(&ctx.with_timeout(time::Duration::seconds(3)), 10_000)
+                                .await;
+                            for _ in 0..4 {
+                                tokio::task::yield_now().await;
+                            }
+                        }
+                        let live = !was && in_out_pool(glue_r);
+                        out_r.push(json!({"ev": "dial", "c": cix, "peer": peer, "em": em, "endpoint_ok": ep == want_ep,
+                                          "live": live, "delivered": delivered, "pools": pools(glue_r)}));
+                        drop(a);
+                        // the loop's connection ends: the peer must leave the pool
+                        let mut n = 0;
+                        while !was && in_out_pool(glue_r) && n < 300 {
+                            tokio::time::sleep(std::time::Duration::from_millis(10)).await;
+                            n += 1;
+                        }
+                        // (a peer that stays in the pool is reported by the pools, not as a hang)
+                        out_r.push(json!({"ev": "disc", "c": cix, "pools": pools(glue_r)}));
+                    }
+                    Ok::<bool, ctx::Error>(bad)
+                })
+                .await
+                .unwrap_or(true);
+                // the cancelled loop may have left a half-made dial in a backlog
+                for _ in 0..10 {
+                    tokio::task::yield_now().await;
+                }
+                drain(ctx, listener).await;
+                drain(ctx, listener2).await;
+                while advs.len() < ids.len() {
+                    advs.push(None);
+                    handles.push(None);
+                }
+                if stuck_here {
+                    stuck = true;
+                }
             }
             _ => {
                 let cix = ev[1].as_u64().unwrap() as usize;
@@ -807,9 +1030,10 @@ fn main() {
         .build()
         .unwrap();
     let local = tokio::task::LocalSet::new();
-    let mut listener = {
+    let addr2 = net::tcp::testonly::reserve_listener();
+    let (mut listener, mut listener2) = {
         let _g = rt.enter();
-        addr.bind(false).expect("bind")
+        (addr.bind(false).expect("bind"), addr2.bind(false).expect("bind"))
     };
     for c in cases {
         let out = match c["t"].as_str().unwrap() {
@@ -819,7 +1043,7 @@ fn main() {
                 // per-case watchdog: a case can never hang the check
                 match tokio::time::timeout(
                     std::time::Duration::from_secs(60),
-                    run_glue(env.clone(), &mut listener, &c),
+                    run_glue(env.clone(), &mut listener, &mut listener2, *addr2, &c),
                 )
                 .await
                 {
